@@ -256,6 +256,105 @@ func c09Enumerate(c *lib.Ctx, base c09Case, only *c09Case) []lib.Violation {
 	return vs
 }
 
+// c09CrashThenWrite: a write is killed at every crash point; afterwards a fresh process performs
+// another, complete write whose content is SHORTER. That later write reported success, so the file
+// must hold exactly its complete content (computed from whichever of {old, new1} the crash left).
+func c09CrashThenWrite(c *lib.Ctx, target string, only *c09Case) []lib.Violation {
+	defer vtime.Disable()
+	defer vos.Install(nil)
+	var vs []lib.Violation
+	base := c09Case{Target: target, Entries: 5}
+	long := Cmd{Command: "a-new-command-with-a-long-text", Description: strings.Repeat("a long description that makes the document longer ", 12), Keywords: []string{"long"}}
+	second := func(path string) error {
+		if target == "notebook" {
+			err, _ := accSave(path, Cmd{Command: "saved-command-00 --flag value", Description: "short"})
+			return err
+		}
+		sh := history.NewSearchHistory(path, 100)
+		return sh.Clear()
+	}
+	first := func(path string) func() error {
+		if target == "notebook" {
+			return func() error { err, _ := accSave(path, long); return err }
+		}
+		return func() error {
+			sh := history.NewSearchHistory(path, 100)
+			_ = sh.Load()
+			sh.AddEntry(strings.Repeat("a very long query ", 20), 3, "generic directory", 5*time.Millisecond)
+			return sh.Save()
+		}
+	}
+	// clean runs: new1, and the second write applied to old and to new1
+	op, old, _ := c09Setup(c.Scratch, base)
+	h := vos.NewHooks()
+	vos.Install(h)
+	if err := first(op.path)(); err != nil {
+		c.Fail("crash-then-write dry run failed: %v", err)
+		return nil
+	}
+	vos.Install(nil)
+	steps := h.Steps
+	new1, _ := os.ReadFile(op.path)
+	second(op.path)
+	eNew, _ := os.ReadFile(op.path)
+	op, _, _ = c09Setup(c.Scratch, base)
+	second(op.path)
+	eOld, _ := os.ReadFile(op.path)
+	if len(eOld) >= len(new1) || len(eNew) >= len(new1) {
+		c.Fail("crash-then-write: the second content is not shorter than the first")
+		return nil
+	}
+	seen := 0
+	for i, s := range steps {
+		n := 0
+		if s.Op == "Write" {
+			n = s.N
+		}
+		for k := 0; k <= n; k++ {
+			cs := base
+			cs.Fault, cs.Step, cs.Byte, cs.Second = "crash-then-write", i, k, true
+			if only != nil && (only.Step != i || only.Byte != k) {
+				continue
+			}
+			op, _, _ := c09Setup(c.Scratch, base)
+			hh := vos.NewHooks()
+			hh.CrashStep, hh.CrashByte = i, k
+			vos.Install(hh)
+			func() {
+				defer func() {
+					if r := recover(); r != nil {
+						if _, ok := r.(vos.Crash); !ok {
+							panic(r)
+						}
+					}
+				}()
+				first(op.path)()
+			}()
+			vos.Install(nil)
+			mid, _ := os.ReadFile(op.path)
+			err := second(op.path) // a fresh process, no faults
+			got, _ := os.ReadFile(op.path)
+			c.Rep.Evaluations++
+			c.Count("injected:crash-then-write", 1)
+			want := eOld
+			if bytes.Equal(mid, new1) {
+				want = eNew
+			} else if !bytes.Equal(mid, old) {
+				continue // the crash itself tore the file: reported by the single-fault enumeration
+			}
+			if err != nil || !bytes.Equal(got, want) {
+				seen++
+				if seen <= 2 {
+					vs = append(vs, lib.Violation{Key: "stale-leftover:" + target, What: fmt.Sprintf("a %s write was killed at step %d (%s) byte %d; the next, complete write (reported %v) left %d bytes instead of its own %d-byte content (leftovers of the killed write were reused)", target, i, s.Op, k, errStr(err), len(got), len(want)), Case: cs})
+				} else {
+					c.Count("violation_key:stale-leftover:"+target, 1)
+				}
+			}
+		}
+	}
+	return vs
+}
+
 // ---------------------------------------------------------------- process twin
 
 // child: vcheck -sub fsize <k> <bin> args...  (sets RLIMIT_FSIZE then execs)
@@ -399,6 +498,9 @@ func c09Run(c *lib.Ctx) {
 			jobs = append(jobs, job{base: c09Case{Entries: n}, cli: cmd})
 		}
 	}
+	for _, t := range []string{"notebook", "history"} {
+		jobs = append(jobs, job{base: c09Case{Target: t, Fault: "crash-then-write"}})
+	}
 	bin := os.Getenv("VERIF_WTF")
 	for ji, j := range jobs {
 		if !c.Mine(int64(ji)) {
@@ -417,7 +519,11 @@ func c09Run(c *lib.Ctx) {
 			if j.base.Target == "notebook" && c.Rep.Cap == "accessor unavailable" {
 				continue
 			}
-			vs = c09Enumerate(c, j.base, nil)
+			if j.base.Fault == "crash-then-write" {
+				vs = c09CrashThenWrite(c, j.base.Target, nil)
+			} else {
+				vs = c09Enumerate(c, j.base, nil)
+			}
 		}
 		for _, v := range vs {
 			c.Violate(v)
@@ -430,7 +536,7 @@ func init() {
 	lib.Subs["fsize"] = c09FsizeChild
 	lib.Register(&lib.Check{
 		ID: "C09", Level: "fault_enumeration",
-		Rule:      "exhaustive crash-point and error-point enumeration at the os seam (vos) on the real write paths: for the notebook save (saveToPersonalDatabase) and the history update made by every search (Load, AddEntry, Save), starting from a missing file and from files of 0, 1, 5 (quick) and 40 (thorough) entries, and as the second write of a two-write history: a dry run records the mutating file-system steps (mkdir, create/truncate, every write, sync, chmod, close, rename, remove); then a crash is injected at EVERY step boundary and at EVERY byte offset of every write (later clean-up calls are dropped, as in a killed process), and ENOSPC and EIO are injected at the same positions; after each, the file as a fresh process finds it must equal the complete previous or the complete new content, a write that did not take effect must have returned an error, and the earlier entries must load. Process twin: the real `wtf save`, `wtf save-pipeline` and `wtf <query>` re-executed under RLIMIT_FSIZE = k for EVERY k in 0..len(new content), same oracle on the file plus 'saved successfully' only if saved. evaluations = injected runs; non-trivial = runs in which the fault fired",
+		Rule:      "exhaustive crash-point and error-point enumeration at the os seam (vos) on the real write paths: for the notebook save (saveToPersonalDatabase) and the history update made by every search (Load, AddEntry, Save), starting from a missing file and from files of 0, 1, 5 (quick) and 40 (thorough) entries, and as the second write of a two-write history: a dry run records the mutating file-system steps (mkdir, create/truncate, every write, sync, chmod, close, rename, remove); then a crash is injected at EVERY step boundary and at EVERY byte offset of every write (later clean-up calls are dropped, as in a killed process), and ENOSPC and EIO are injected at the same positions; after each, the file as a fresh process finds it must equal the complete previous or the complete new content, a write that did not take effect must have returned an error, and the earlier entries must load. Two-fault histories: the first write is killed at EVERY crash point, then a fresh process completes a second, shorter write; the file must hold exactly that write's content (no reuse of leftovers). Process twin: the real `wtf save`, `wtf save-pipeline` and `wtf <query>` re-executed under RLIMIT_FSIZE = k for EVERY k in 0..len(new content), same oracle on the file plus 'saved successfully' only if saved. evaluations = injected runs; non-trivial = runs in which the fault fired",
 		Assume:    []string{"file-system calls of the write path go through os.* functions that the build overlay routes to vos; a crash preserves the bytes already written (prefix model), no reordering of un-synced data", "history content is made deterministic with the virtual clock"},
 		QuickSecs: 200, ThorSecs: 1500,
 		Run: c09Run,
@@ -445,6 +551,9 @@ func init() {
 				}
 				return nil
 			}
+			if cs.Fault == "crash-then-write" {
+				return c09CrashThenWrite(c, cs.Target, &cs)
+			}
 			return c09Enumerate(c, c09Case{Target: cs.Target, Entries: cs.Entries, Second: cs.Second}, &cs)
 		},
 		Finish: func(m *lib.Report, tier string) string {
@@ -454,7 +563,7 @@ func init() {
 			if m.Counters["injected:crash"] < 500 {
 				return "vacuous: fewer than 500 crash points - the write path is not going through the instrumented seam"
 			}
-			for _, k := range []string{"injected:crash", "injected:ENOSPC", "injected:EIO", "fsize_runs:save", "fsize_runs:save-pipeline", "fsize_runs:search"} {
+			for _, k := range []string{"injected:crash", "injected:ENOSPC", "injected:EIO", "injected:crash-then-write", "fsize_runs:save", "fsize_runs:save-pipeline", "fsize_runs:search"} {
 				if m.Counters[k] == 0 {
 					return "vacuous: counter " + k + " is zero"
 				}
